@@ -1598,7 +1598,34 @@ fn header_flags(d: &[u8]) -> i128 {
     flags
 }
 
+/// Twin runs for determinism / time-translation / spurious-call checks (C20): key 901 selects
+/// how the SECOND run differs: 1 identical, 2 every instant shifted by 977_777_777 us,
+/// 3 spurious handle_timeout/poll calls and early wake-ups added (driver choices use their own
+/// PRNG stream, the network's choices are unchanged), 4 timers serviced late by up to 3 ms.
+/// Output: trace of run A, record [99], trace of run B.
 pub fn run_case(ops: &[Vec<i128>]) -> Vec<Vec<i128>> {
+    let p = P::from_ops(ops);
+    let twin = p.get(901, 0);
+    if twin == 0 {
+        return run_one(ops);
+    }
+    let mut a = run_one(ops);
+    let mut ops_b: Vec<Vec<i128>> = ops.to_vec();
+    let extra: Vec<i128> = match twin {
+        2 => vec![k::SHIFT_US, p.get(k::SHIFT_US, 0) + 977_777_777],
+        3 => vec![k::SPURIOUS, 300, k::EARLY_POLL, 300],
+        4 => vec![k::LATE_US, 3000],
+        _ => vec![],
+    };
+    // later pairs override earlier ones
+    ops_b.push(extra);
+    let b = run_one(&ops_b);
+    a.push(vec![99]);
+    a.extend(b);
+    a
+}
+
+fn run_one(ops: &[Vec<i128>]) -> Vec<Vec<i128>> {
     let mut w = World::new(P::from_ops(ops));
     // a panic inside the real endpoints is an outcome: keep the trace up to it, then record 16
     let r = std::panic::catch_unwind(std::panic::AssertUnwindSafe(|| w.run()));
